@@ -4,9 +4,12 @@ package main
 
 import (
 	"fmt"
+	"strings"
 	"time"
 
+	mqtt "github.com/at-wat/mqtt-go"
 	"github.com/at-wat/mqtt-go/internal/verif/env"
+	vctx "github.com/at-wat/mqtt-go/internal/verif/shim/context"
 	"github.com/at-wat/mqtt-go/internal/verif/vrt"
 )
 
@@ -142,5 +145,140 @@ func runC01(c *Ctx) {
 	}
 	if sample != nil {
 		c.Sample(map[string]any{"workload": rcName(sample.cfg.Reqs), "faults": sample.broker.FaultLog, "wire": sample.net.TraceStrings()})
+	}
+	c01SwapDuringTask(c)
+}
+
+// c01SwapDuringTask: a bare RetryClient whose application installs the next connection (SetClient, then
+// Connect, then Retry) while requests are still being carried out on the current, healthy one.
+func c01SwapDuringTask(c *Ctx) {
+	kinds := []string{"p1", "p2", "sub"}
+	c.Bound("swap", fmt.Sprintf("bare RetryClient, session kept: request A in %v submitted on the first connection; 1 s later the application dials, calls SetClient, Connect, Retry (the first connection having been lost 250 ms earlier (ordinary redial) | still being up and closed by the application after the swap | still being up and closed by the broker when it accepts the second CONNECT; request B in %v submitted 0.5 s before SetClient | between SetClient and Connect | after Connect; faults: any one answer of the broker 6 s late (F<=1); P<=1; the application calls Retry once more when everything has settled, then every accepted request must have been acknowledged", kinds, kinds))
+	issue := func(rc *mqtt.RetryClient, k, tag string) error {
+		bg := vctx.Background()
+		switch k {
+		case "p1":
+			return rc.Publish(bg, &mqtt.Message{Topic: "t", QoS: mqtt.QoS1, Payload: []byte(tag)})
+		case "p2":
+			return rc.Publish(bg, &mqtt.Message{Topic: "t", QoS: mqtt.QoS2, Payload: []byte(tag)})
+		default:
+			_, err := rc.Subscribe(bg, mqtt.Subscription{Topic: "f/" + tag, QoS: mqtt.QoS1})
+			return err
+		}
+	}
+	ackedOnWire := func(net *env.Net, k, tag string) bool {
+		ids := map[string]bool{}
+		var evs []env.WireEvent
+		for _, e := range net.Trace {
+			if e.Pkt == nil && e.Dir == '<' {
+				// answers delivered late arrive as raw bytes
+				for raw := e.Raw; len(raw) > 0; {
+					p, n, err := env.Decode(raw)
+					if err != nil {
+						break
+					}
+					evs = append(evs, env.WireEvent{Conn: e.Conn, Dir: '<', Pkt: p})
+					raw = raw[n:]
+				}
+				continue
+			}
+			evs = append(evs, e)
+		}
+		for _, e := range evs {
+			if e.Pkt == nil {
+				continue
+			}
+			key := fmt.Sprintf("%d/%d", e.Conn, e.Pkt.ID)
+			switch {
+			case e.Dir == '>' && k != "sub" && e.Pkt.Type == env.PUBLISH && string(e.Pkt.Payload) == tag:
+				ids[key] = true
+			case e.Dir == '>' && k == "p2" && e.Pkt.Type == env.PUBREL:
+				// the identifier is the message's on every connection
+				for id := range ids {
+					if strings.HasSuffix(id, fmt.Sprintf("/%d", e.Pkt.ID)) {
+						ids[key] = true
+					}
+				}
+			case e.Dir == '>' && k == "sub" && e.Pkt.Type == env.SUBSCRIBE && len(e.Pkt.Filters) == 1 && e.Pkt.Filters[0] == "f/"+tag:
+				ids[key] = true
+			case e.Dir == '<' && ids[key] && (k == "p1" && e.Pkt.Type == env.PUBACK || k == "p2" && e.Pkt.Type == env.PUBCOMP || k == "sub" && e.Pkt.Type == env.SUBACK):
+				return true
+			}
+		}
+		return false
+	}
+	for _, ka := range kinds {
+		for _, kb := range kinds {
+			for _, bAt := range []string{"before-setclient", "between-setclient-and-connect", "after-connect"} {
+				for _, old := range []string{"closed-by-application-after-swap", "taken-over-by-broker", "lost-before-redial"} {
+					ka, kb, bAt, old := ka, kb, bAt, old
+					takeover := old == "taken-over-by-broker"
+					var net *env.Net
+					sc := &vrt.Scenario{
+						Name:  fmt.Sprintf("C01/swap/A=%s/B=%s@%s/first-connection-%s", ka, kb, bAt, old),
+						Bound: vrt.Budget{F: 1, P: 1, Total: 2},
+						Cfg:   vrt.Config{Horizon: int64(120 * time.Second)},
+						Body: func() {
+							net = env.NewNet()
+							b := env.NewBroker(net)
+							b.Faults = env.FaultSet{LateAck: true}
+							b.Takeover = takeover
+							bg := vctx.Background()
+							var errs []string
+							rc := &mqtt.RetryClient{}
+							rc.OnError = func(err error) { errs = append(errs, err.Error()) }
+							conn1, _ := b.Dial()
+							cli1 := &mqtt.BaseClient{Transport: conn1}
+							rc.SetClient(bg, cli1)
+							if _, err := rc.Connect(bg, "cid", mqtt.WithCleanSession(false)); err != nil {
+								vrt.Failf("harness", "connect: %v", err)
+								return
+							}
+							accA := issue(rc, ka, "a")
+							var accB error
+							vrt.Sleep(int64(500 * time.Millisecond))
+							if bAt == "before-setclient" {
+								accB = issue(rc, kb, "b")
+							}
+							vrt.Sleep(int64(250 * time.Millisecond))
+							if old == "lost-before-redial" {
+								conn1.PeerClose("link lost") // the ordinary redial of an application-owned loop
+							}
+							vrt.Sleep(int64(250 * time.Millisecond))
+							conn2, _ := b.Dial()
+							rc.SetClient(bg, &mqtt.BaseClient{Transport: conn2})
+							if bAt == "between-setclient-and-connect" {
+								accB = issue(rc, kb, "b")
+								vrt.Settle()
+							}
+							if _, err := rc.Connect(bg, "cid", mqtt.WithCleanSession(false)); err != nil {
+								vrt.Failf("harness", "second connect: %v", err)
+								return
+							}
+							rc.Retry(bg)
+							if bAt == "after-connect" {
+								accB = issue(rc, kb, "b")
+							}
+							cli1.Close()
+							vrt.Quiesce()
+							rc.Retry(bg) // whatever failed on the first connection after the first Retry call
+							vrt.Quiesce()
+							for _, x := range []struct {
+								k, tag string
+								acc    error
+							}{{ka, "a", accA}, {kb, "b", accB}} {
+								if x.acc == nil && !ackedOnWire(net, x.k, x.tag) {
+									vrt.Failf(fmt.Sprintf("c01/lost:swap:%s:%s@%s", x.tag, x.k, map[bool]string{true: bAt, false: "first-connection"}[x.tag == "b"]), "accepted request %s (%s) was never acknowledged; B submitted %s; faults %v; OnError saw %v\n wire:\n  %s", x.tag, x.k, bAt, b.FaultLog, errs, strings.Join(net.TraceStrings(), "\n  "))
+								}
+							}
+							rc.Disconnect(bg)
+							vrt.Quiesce()
+						},
+						Observe: func() uint64 { return net.TraceHash() },
+					}
+					c.Explore(sc)
+				}
+			}
+		}
 	}
 }
